@@ -183,6 +183,8 @@ class Interp(object):
         self.flush_hook = None
         self.int_bounds = {}
         self.render_cache = {}
+        self.serials = {}
+        self._keepalive = []
         self._ex = {}
         self._ev = {}
         for name in dir(self):
@@ -406,8 +408,12 @@ class Interp(object):
 
     def cut(self, cond, reason):
         """restrict the path to `cond`; what is excluded is recorded as outside the claim"""
-        if not self.in_prefix:
-            self.stats.cuts[reason] = self.stats.cuts.get(reason, 0) + 1
+        if isinstance(cond, SymBool):
+            cond = cond.t
+        if not self.in_prefix and not isinstance(cond, bool):
+            self._flush()
+            if self.feasible(z3.Not(cond)):        # only count cuts that really exclude something
+                self.stats.cuts[reason] = self.stats.cuts.get(reason, 0) + 1
         try:
             self.assume(cond)
         except PathInfeasible:
@@ -435,6 +441,8 @@ class Interp(object):
             self.pc = []
             self.model = None
             self.render_cache = {}
+            self.serials = {}
+            self._keepalive = []
             sstr._fresh[0] = 0
             sstr.BOUND_ORACLE[0] = self.tight_bound
             for h in self.path_hooks:
@@ -552,6 +560,16 @@ class Interp(object):
             info.localnames, info.globalnames, info.is_gen = _collect_locals(node)
         return info
 
+    def serial(self, obj):
+        """creation order of an object on the current path (deterministic across re-executions)"""
+        k = id(obj)
+        n = self.serials.get(k)
+        if n is None:
+            n = len(self.serials)
+            self.serials[k] = n
+            self._keepalive.append(obj)
+        return n
+
     def allow_stdlib(self, *funcs):
         for f in funcs:
             f = getattr(f, "__func__", f)
@@ -665,6 +683,8 @@ class Interp(object):
         t = self.truth_term(v)
         if t is not None:
             return self.decide(t)
+        if hasattr(type(v), "psx_truth"):
+            return self.truth(v.psx_truth())
         return self.obj_truth(v)
 
     def obj_truth(self, v):
@@ -683,6 +703,10 @@ class Interp(object):
         """a == b as a Python bool or SymBool"""
         if a is b and not isinstance(a, float):
             return True
+        if hasattr(type(a), "psx_eq"):
+            return a.psx_eq(b)
+        if hasattr(type(b), "psx_eq"):
+            return b.psx_eq(a)
         sa, sb = isinstance(a, SYM), isinstance(b, SYM)
         if not sa and not sb:
             if isinstance(a, (list, tuple, dict)) and type(a) is type(b) or \
@@ -1466,6 +1490,8 @@ class Interp(object):
         def pure(n):
             if isinstance(n, (ast.Constant, ast.Name)):
                 return True
+            if isinstance(n, ast.Attribute):
+                return pure(n.value)
             if isinstance(n, ast.Compare):
                 return pure(n.left) and all(pure(c) for c in n.comparators) and \
                     all(isinstance(o, (ast.Eq, ast.NotEq, ast.Is, ast.IsNot, ast.Lt, ast.LtE, ast.Gt, ast.GtE)) for o in n.ops)
